@@ -573,11 +573,12 @@ Fixpoint named_eqb (a b : list (str * cname)) : bool :=
 # ======================================================================================
 CHK = '''
 Inductive qcase :=
-| QStatic (o : id) (n : str) (st : option (id * bool))
-| QAllowed (o : id) (n : str) (safe : bool) (t : bool * bool * bool) (hs : list hook)
-| QPyget (o : id) (n : str) (r : ores) (hs : list hook)
+| QAttr (o : id) (n : str) (st : option (id * bool))
+        (ts : bool * bool * bool) (hs : list hook)
+        (with_unsafe : bool) (tu : bool * bool * bool) (hu : list hook)
+        (r : ores) (hp : list hook)
 | QDir (o : id) (modelled : list str) (d : list str)
-| QGet (o : id) (n : str) (allow_unsafe is_instance in_dir : bool) (obs : list cname)
+| QGet (o : id) (n : str) (in_dir : bool) (obs : list (bool * bool * list cname))
 | QValues (o : id) (d : list str) (allow_unsafe is_instance : bool) (obs : list (str * cname))
 | QItems (o : id) (got_safe got_unsafe has_iter_attr ret_annot iterated iter_hook truth_hook all_iter : bool).
 
@@ -592,24 +593,30 @@ Definition unknown_has (o : id) (n : str) : bool :=
   | _, _ => false
   end.
 
+Definition chk_static (o : id) (n : str) (st : option (id * bool)) : bool :=
+  ostatic_eqb (getattr_static H o n) st.
+Definition chk_allowed (o : id) (n : str) (safe : bool) (t : bool * bool * bool) (hs : list hook) : bool :=
+  let m := is_allowed_getattr H o n safe in
+  (if negb safe && unknown_has o n then triple_agree m RHook t else triple_eqb (fst m) t) &&
+  (if negb safe && unknown_has o n then hooks_agree (no_getattr (snd m)) (no_getattr hs)
+   else hooks_agree (snd m) hs).
+Definition chk_pyget (o : id) (n : str) (r : ores) (hs : list hook) : bool :=
+  res_agree (fst (py_getattr H o n)) r &&
+  match fst (py_getattr H o n) with
+  | ROpaque => hooks_agree (snd (py_getattr H o n)) (no_getattr hs)  (* builtin code may raise AttributeError *)
+  | _ => hooks_agree (snd (py_getattr H o n)) hs
+  end.
+
 Definition chk (c : qcase) : bool :=
   match c with
-  | QStatic o n st => ostatic_eqb (getattr_static H o n) st
-  | QAllowed o n safe t hs =>
-      let m := is_allowed_getattr H o n safe in
-      (if negb safe && unknown_has o n then triple_agree m RHook t else triple_eqb (fst m) t) &&
-      (if negb safe && unknown_has o n then hooks_agree (no_getattr (snd m)) (no_getattr hs)
-       else hooks_agree (snd m) hs)
-  | QPyget o n r hs =>
-      res_agree (fst (py_getattr H o n)) r &&
-      match fst (py_getattr H o n) with
-      | ROpaque => hooks_agree (snd (py_getattr H o n)) (no_getattr hs)  (* builtin code may raise AttributeError *)
-      | _ => hooks_agree (snd (py_getattr H o n)) hs
-      end
+  | QAttr o n st ts hs with_unsafe tu hu r hp =>
+      chk_static o n st && chk_allowed o n true ts hs &&
+      (if with_unsafe then chk_allowed o n false tu hu else true) && chk_pyget o n r hp
   | QDir o modelled d => set_eqb (filter (fun x => str_mem x modelled) (py_dir H o)) d
-  | QGet o n allow_unsafe is_instance in_dir obs =>
-      if allow_unsafe && unknown_has o n then true
-      else cnames_eqb (filter_get_name H o n allow_unsafe is_instance true in_dir) obs
+  | QGet o n in_dir obs =>
+      forallb (fun v => let '(allow_unsafe, is_instance, names) := v in
+                        if allow_unsafe && unknown_has o n then true
+                        else cnames_eqb (filter_get_name H o n allow_unsafe is_instance true in_dir) names) obs
   | QValues o d allow_unsafe is_instance obs =>
       named_eqb (filter_values H o d allow_unsafe is_instance (fun _ => true)) obs
   | QItems o got_safe got_unsafe has_iter_attr ret_annot iterated iter_hook truth_hook all_iter =>
@@ -749,16 +756,25 @@ def corr_task(task):
         C = b.C
         cases, meta = out['cases'], out['meta']
 
-        def add(stream, term, m):
+        def add(stream, term, m, weight=1):
             cases.append(term)
-            meta.append((stream,) + tuple(m))
-            out['n'][stream] += 1
+            meta.append((stream,) + tuple(m) + (weight,))
+            out['n'][stream] += weight
 
         states = {}
         for unsafe in (False, True):
             jedi.settings.allow_unsafe_interpreter_executions = unsafe
             states[unsafe] = jedi.Interpreter('x', [b.NS])._inference_state
         acc_state = states[False]
+
+        def kind(nm):
+            if isinstance(nm, V.EmptyCompiledName):
+                return 'NEmpty'
+            if isinstance(nm, V.CompiledValueName):
+                return 'NAnnot'
+            w = getattr(nm, '_wrapped_name', nm)
+            return '(NReal %s)' % g_bool(bool(w.is_descriptor))
+
         for ri, r in enumerate(recv):
             user_names = set(ATTR_POOL) | set(BASE_NAMES[ri % 3::3]) | {'__dict__', '__class__', '__nope__'}
             if isinstance(r, type):
@@ -772,8 +788,7 @@ def corr_task(task):
             names = set(user_names)
             if d_all is not None:
                 inherited = set(dir(type)) if isinstance(r, type) else set(dir(object))
-                extra = [n for n in d_all if n not in inherited]
-                names |= set(extra)
+                names |= {n for n in d_all if n not in inherited}
                 if ri in full_recv or ri % 7 == 0:
                     names |= set(d_all)
             names = sorted(n for n in names if modelled_name(enc, r, n))
@@ -781,11 +796,20 @@ def corr_task(task):
             acc = A.DirectObjectAccess(acc_state, r)
             if d is not None and not dict_shadowed_plain(r):
                 add('dir', '(QDir %d %s %s)' % (o, g_list(sorted(set(names) | set(d)), N.g, 'str'),
-                                                g_list(d, N.g, 'str')), (o,))
+                                                g_list(d, N.g, 'str')), (o, None))
             has_user_getattribute = any(
                 isinstance(class_dict(c).get('__getattribute__'), types.FunctionType) for c in class_mro(type(r)))
-            ni = 0
-            for n in names:
+            # one filter per (mode, is_instance)
+            filters = {}
+            for unsafe in (False, True):
+                try:
+                    val = V.create_from_access_path(states[unsafe], A.create_access_path(states[unsafe], r))
+                except Exception as e:
+                    out['n']['create_value_exc:' + type(e).__name__] += 1
+                    continue
+                for is_inst in (False, True):
+                    filters[(unsafe, is_inst)] = V.CompiledValueFilter(states[unsafe], val, is_inst)
+            for ni, n in enumerate(names):
                 # ---- getattr_static
                 C.clear()
                 try:
@@ -803,12 +827,10 @@ def corr_task(task):
                     out['bad'].append(dict(stream='static', cls='static-ran-hook', recv=o, name=n,
                                            what='getattr_static itself ran user hooks',
                                            hooks=sorted(k[:2] for k in C)))
-                add('static', '(QStatic %d %s %s)' % (o, N.g(n), g_opt(st, lambda s: '(%d, %s)' % (s[0], g_bool(s[1])))),
-                    (o, n))
                 # ---- is_allowed_getattr
-                verdict = None
-                ni += 1
-                for safe in ((True, False) if ni % 2 else (True,)):
+                verdict, obs_allowed = None, {}
+                with_unsafe = ni % 2 == 0
+                for safe in ((True, False) if with_unsafe else (True,)):
                     C.clear()
                     try:
                         has, isd, ann = acc.is_allowed_getattr(n, safe=safe)
@@ -817,15 +839,15 @@ def corr_task(task):
                     except Exception as e:
                         out['bad'].append(dict(stream='allowed', cls='raised', recv=o, name=n,
                                                what='is_allowed_getattr raised %r' % (e,)))
-                        continue
+                        break
                     delta = +C
                     if safe and any(k[0] in EIGHT for k in delta):
                         out['bad'].append(dict(stream='allowed', cls='safe-allowed-ran-hook', recv=o, name=n,
                                                what='is_allowed_getattr(safe=True) ran user hooks',
                                                hooks=sorted(k[:2] for k in delta)))
-                    add('allowed', '(QAllowed %d %s %s %s %s)' % (o, N.g(n), g_bool(safe),
-                                                                 g_triple((has, isd, ann is not None)),
-                                                                 g_hooks(observed_hooks(b, enc, delta))), (o, n, safe))
+                    obs_allowed[safe] = (g_triple((has, isd, ann is not None)), g_hooks(observed_hooks(b, enc, delta)))
+                if True not in obs_allowed or (with_unsafe and False not in obs_allowed):
+                    continue
                 # ---- what Python does
                 C.clear()
                 try:
@@ -836,7 +858,11 @@ def corr_task(task):
                 except Exception:
                     rs = 'OOther'
                 delta = +C
-                add('pyget', '(QPyget %d %s %s %s)' % (o, N.g(n), rs, g_hooks(observed_hooks(b, enc, delta))), (o, n))
+                tu, hu = obs_allowed.get(False, ('(false, false, false)', g_hooks([])))
+                add('attr', '(QAttr %d %s %s %s %s %s %s %s %s %s)' % (
+                    o, N.g(n), g_opt(st, lambda s: '(%d, %s)' % (s[0], g_bool(s[1]))),
+                    obs_allowed[True][0], obs_allowed[True][1], g_bool(with_unsafe), tu, hu,
+                    rs, g_hooks(observed_hooks(b, enc, delta))), (o, n), weight=4 if with_unsafe else 3)
                 # ground truth for theorems static_no_descriptor_run / safe_filter_runs_no_descriptor, directly
                 # on the implementation: the safe-mode verdict is "real name, not a descriptor" (so the name is
                 # looked up with getattr when inferred) although getattr runs a Python-level __get__ / getter
@@ -850,26 +876,10 @@ def corr_task(task):
                             stream='static', cls='safe-name-but-getattr-runs-descriptor', where=loc, recv=o, name=n,
                             what='is_allowed_getattr(safe) on (%s, %r) answers "plain name" but getattr runs %s'
                                  % (_describe(b, r), n, sorted(k[:2] for k in fired))))
-            # ---- the filter
-            for unsafe in (False, True):
-                st8 = states[unsafe]
-                try:
-                    val = V.create_from_access_path(st8, A.create_access_path(st8, r))
-                except Exception as e:
-                    out['n']['create_value_exc:' + type(e).__name__] += 1
-                    continue
-
-                def kind(nm):
-                    if isinstance(nm, V.EmptyCompiledName):
-                        return 'NEmpty'
-                    if isinstance(nm, V.CompiledValueName):
-                        return 'NAnnot'
-                    w = getattr(nm, '_wrapped_name', nm)
-                    return '(NReal %s)' % g_bool(bool(w.is_descriptor))
-                for is_inst in (False, True):
-                    flt = V.CompiledValueFilter(st8, val, is_inst)
-                    sub = names[::2] if (is_inst != isinstance(r, type)) else names[1::6]
-                    for n in sub:
+                # ---- the filter's get(name), all four (mode, is_instance) variants
+                if ni % 2 == 0:
+                    variants = []
+                    for (unsafe, is_inst), flt in sorted(filters.items()):
                         C.clear()
                         try:
                             got = [kind(x) for x in flt.get(n)]
@@ -881,32 +891,36 @@ def corr_task(task):
                             out['bad'].append(dict(stream='filter', cls='safe-filter-get-ran-hook', recv=o, name=n,
                                                    what='CompiledValueFilter.get in safe mode ran user hooks',
                                                    hooks=sorted(k[:2] for k in delta)))
-                        add('get', '(QGet %d %s %s %s %s %s)' % (
-                            o, N.g(n), g_bool(unsafe), g_bool(is_inst), g_bool(d_all is not None and n in d_all),
-                            g_list(got, str, 'cname')), (o, n, unsafe, is_inst))
-                    if d is None:
-                        continue
-                    C.clear()
-                    try:
-                        vals = flt.values()
-                    except Exception as e:
-                        out['n']['filter_values_exc:' + type(e).__name__] += 1
-                        continue
-                    delta = +C
-                    if any(k[0] in EIGHT for k in delta):
-                        out['bad'].append(dict(stream='filter', cls='filter-values-ran-hook', recv=o, unsafe=unsafe,
-                                               what='CompiledValueFilter.values ran user hooks',
-                                               hooks=sorted(k[:2] for k in delta)))
-                    missing = sorted(set(d_all) - {x.string_name for x in vals})
-                    if missing:
-                        out['bad'].append(dict(stream='filter', cls='values-miss-dir', recv=o, unsafe=unsafe,
-                                               what='names of dir(obj) missing from CompiledValueFilter.values(): %r'
-                                                    % (missing[:10],)))
-                    dset = set(d)
-                    obs = [(x.string_name, kind(x)) for x in vals[:len(d_all)] if x.string_name in dset]
-                    add('values', '(QValues %d %s %s %s %s)' % (
-                        o, g_list(d, N.g, 'str'), g_bool(unsafe), g_bool(is_inst),
-                        g_list(obs, lambda t: '(%s, %s)' % (N.g(t[0]), t[1]), 'str * cname')), (o, unsafe, is_inst))
+                        variants.append('(%s, %s, %s)' % (g_bool(unsafe), g_bool(is_inst), g_list(got, str, 'cname')))
+                    if variants:
+                        add('get', '(QGet %d %s %s %s)' % (o, N.g(n), g_bool(d_all is not None and n in d_all),
+                                                          g_list(variants, str, 'bool * bool * list cname')),
+                            (o, n), weight=len(variants))
+            # ---- the filter's values()
+            for (unsafe, is_inst), flt in sorted(filters.items()):
+                if d is None:
+                    continue
+                C.clear()
+                try:
+                    vals = flt.values()
+                except Exception as e:
+                    out['n']['filter_values_exc:' + type(e).__name__] += 1
+                    continue
+                delta = +C
+                if any(k[0] in EIGHT for k in delta):
+                    out['bad'].append(dict(stream='filter', cls='filter-values-ran-hook', recv=o, unsafe=unsafe,
+                                           what='CompiledValueFilter.values ran user hooks',
+                                           hooks=sorted(k[:2] for k in delta)))
+                missing = sorted(set(d_all) - {x.string_name for x in vals})
+                if missing:
+                    out['bad'].append(dict(stream='filter', cls='values-miss-dir', recv=o, unsafe=unsafe,
+                                           what='names of dir(obj) missing from CompiledValueFilter.values(): %r'
+                                                % (missing[:10],)))
+                dset = set(d)
+                obs = [(x.string_name, kind(x)) for x in vals[:len(d_all)] if x.string_name in dset]
+                add('values', '(QValues %d %s %s %s %s)' % (
+                    o, g_list(d, N.g, 'str'), g_bool(unsafe), g_bool(is_inst),
+                    g_list(obs, lambda t: '(%s, %s)' % (N.g(t[0]), t[1]), 'str * cname')), (o, None))
             # ---- item access / iteration / truth value on the access object
             _items_case(b, enc, acc, r, o, add, out, A)
         for v in list(b.NS.values()):       # builtin containers
@@ -972,7 +986,7 @@ def _items_case(b, enc, acc, r, o, add, out, A):
     C.clear()
     add('items', '(QItems %d %s %s %s false %s %s %s %s)' % (
         o, g_bool(got[True]), g_bool(got[False]), g_bool(it is not None), g_bool(iterated),
-        g_bool(iter_hook), g_bool(truth_hook), g_bool(all_iter)), (o,))
+        g_bool(iter_hook), g_bool(truth_hook), g_bool(all_iter)), (o, None))
 
 
 def _describe(b, r):
@@ -1398,7 +1412,8 @@ def stream_correspondence(ctx, tmpdir, intensify):
         for k, v in res['n'].items():
             per_stream[k] += v
         for term, m in zip(res['cases'], res['meta']):
-            ctx.count(m[0], (res['tag'],) + tuple(m), nontrivial=('None' not in term[:40]) if m[0] == 'static' else True)
+            ctx.count(m[0], (res['tag'],) + tuple(m[:3]),
+                      nontrivial=(' None ' not in term[:60]) if m[0] == 'attr' else True, n=m[-1])
         flagged = set()
         for bad in res['bad']:
             sig = dict(stream=bad['stream'], cls=bad['cls'])
@@ -1411,7 +1426,7 @@ def stream_correspondence(ctx, tmpdir, intensify):
                           bad['what'])
         for i in fails:
             m = res['meta'][i]
-            if (m[1], m[2] if len(m) > 2 else None) in flagged:
+            if m[2] is not None and (m[1], m[2]) in flagged:
                 continue      # the property-level failure on this input is already reported
             nviol += 1
             if nviol > 8:
@@ -1419,7 +1434,7 @@ def stream_correspondence(ctx, tmpdir, intensify):
                 continue
             ctx.violation('obligation', dict(
                 what='correspondence %s: model and implementation differ on a live object graph' % m[0],
-                stream=m[0], case=res['cases'][i][:600], query=list(m), receiver=res['recv_desc'].get(m[1]),
+                stream=m[0], case=res['cases'][i][:600], query=list(m[:3]), receiver=res['recv_desc'].get(m[1]),
                 graph=_graph_for_json(g), route=res['route'], tag=res['tag'], full=sorted(task[4])), nofail=True)
     ctx.stat('corr_graphs', n)
     ctx.stat('corr_heap_objects', dict(min=min(heap_sizes), max=max(heap_sizes)))
